@@ -3,20 +3,22 @@ import GomlVerif.Model.Sem
 /-!
 Typing of the VALUES of `Sem` (C03: soundness of the reference semantics w.r.t. the judgement `Wt`).
 
-* `valTy S v τ` — value `v` of `Sem` inhabits the closed type `τ` under the type definitions of `S`
+* `VT S P v τ` — value `v` of `Sem` inhabits the closed type `τ` under the type definitions of `S`
   (scalars by width, tuples pointwise, enum / struct values by their type NAME and the field types
-  of the definition instantiated at the type arguments of `τ`).  Closures, references, vectors,
-  arrays, function values and trait objects are not typed in this version (`false`): the fragment
-  below never builds them.
-* `envTy S θ ρ Γ` — the environment `ρ` binds exactly the names of `Γ`, in the same order, to values
+  of the definition instantiated at the type arguments of `τ`, a closure when its code is consistent and
+  in the fragment under a typing of its captured environment, a top-level function at an instance of its
+  signature).  References, vectors, arrays and trait objects are not typed in this version: the
+  fragment below never builds them.
+* `ET S P θ ρ Γ` — the environment `ρ` binds exactly the names of `Γ`, in the same order, to values
   of the types of `Γ` instantiated by `θ` (`θ` maps the type parameters of the enclosing generic
   function to the closed types of the current activation: Core is generic, `Sem` runs the generic
   body on concrete values).
 * `okE S P Γ K e` — the decidable fragment of `sem_preserves_types_partial`, and at the same time the
   places where `Wt` alone is too weak for the induction (each is a check the driver evaluates on every
   real Core dump):
-  - a callee is a variable naming a function of the program (instance of its signature by the
-    substitution `matchTy` computes, checked by applying it) or one of the printing / conversion builtins;
+  - a callee is one of the printing / conversion builtins, or any fragment expression of function type
+    (a closure, a local holding one, a top-level function: instance of its signature by the substitution
+    `matchTy` computes, checked by applying it) whose annotation is exactly `(argument types) -> result`;
   - `cget` on an ENUM value is only admitted on a variable that an enclosing arm of a `match` on that
     variable has tested for the same variant (`K`: variable ↦ variant index).  `Wt.errs` checks the
     field type against the constructor written in the node, `Sem` reads the field of whatever variant
@@ -63,41 +65,6 @@ def ctorTyOk : Ctor → Ty → Bool
   | .enum _ _ _, t => isEnumTy t
   | .struct _, t => isStructTy t
 
-mutual
-def valTy (S : Sig) : Val → Ty → Bool
-  | .unit, t => match t with | .unit => true | _ => false
-  | .bool _, t => match t with | .bool => true | _ => false
-  | .int b s _, t => match t with | .int b' s' => b == b' && s == s' | _ => false
-  | .float b _, t => match t with | .float b' => b == b' | _ => false
-  | .str _, t => match t with | .string => true | _ => false
-  | .tuple vs, t => match t with | .tuple ts => valTys S vs ts | _ => false
-  | .enumV n idx args, t =>
-    isEnumTy t &&
-    match enumFieldTys S n idx t with
-    | some fts => valTys S args fts
-    | none => false
-  | .structV n fs, t =>
-    isStructTy t &&
-    match fieldTys S (.struct n) t with
-    | some fts => valTys S fs fts
-    | none => false
-  | .array _, _ => false
-  | .vec _, _ => false
-  | .ref _, _ => false
-  | .closure _ _ _, _ => false
-  | .fn _, _ => false
-  | .dyn _ _ _, _ => false
-def valTys (S : Sig) : List Val → List Ty → Bool
-  | [], ts => match ts with | [] => true | _ :: _ => false
-  | v :: vs, ts => match ts with | t :: ts' => valTy S v t && valTys S vs ts' | [] => false
-end
-
-def envTy (S : Sig) (θ : Subst) : Env → TyEnv → Bool
-  | [], Γ => match Γ with | [] => true | _ :: _ => false
-  | b :: ρ, Γ => match Γ with
-    | p :: Γ' => b.1 == p.1 && valTy S b.2 (substTy θ p.2) && envTy S θ ρ Γ'
-    | [] => false
-
 /-- scalar and non-generic nominal types: the types whose dispatch key determines them -/
 def concreteTy : Ty → Bool
   | .unit | .bool | .string | .int _ _ | .float _ | .enum _ | .struct _ => true
@@ -118,6 +85,12 @@ def dropK (x : String) : Know → Know
 def scrutVar : Expr → Option String
   | .var x _ => some x
   | _ => none
+
+/-- the scrutinee is a LOCAL variable -/
+def scrutLocal (Γ : TyEnv) (e : Expr) : Option String :=
+  match scrutVar e with
+  | some x => if (lookupVar Γ x).isSome then some x else none
+  | none => none
 
 def learn (K : Know) (sv : Option String) (idx : Nat) : Know :=
   match sv with
@@ -140,6 +113,11 @@ def builtinTy : String → Option Ty
   | "uint16_to_string" => some (.func [.int 16 false] .string)
   | "uint32_to_string" => some (.func [.int 32 false] .string)
   | "uint64_to_string" => some (.func [.int 64 false] .string)
+  | "bool_to_json" => some (.func [.bool] .string)
+  | "json_escape_string" => some (.func [.string] .string)
+  | "string_len" => some (.func [.string] (.int 32 true))
+  | "float32_to_string" => some (.func [.float 32] .string)
+  | "float64_to_string" => some (.func [.float 64] .string)
   | _ => none
 
 /-- the callee annotation `tf` of a call of the program function `g` is the instance of `g`'s
@@ -149,13 +127,18 @@ def instSubst (g : Fn) (tf : Ty) : Option Subst :=
   | some σ => if tyBeq (substTy σ (fnTy g)) tf then some σ else none
   | none => none
 
-def calleeOk (P : Prog) (f : String) (tf : Ty) : Bool :=
+/-- a top-level function used as a value (or as a callee) at the annotation `tf` -/
+def fnValOk (P : Prog) (f : String) (tf : Ty) : Bool :=
   match P.findFn f with
   | some g => (instSubst g tf).isSome
-  | none =>
+  | none => false
+
+/-- an admitted builtin used as a callee at its own type -/
+def builtinOk (P : Prog) (f : String) (tf : Ty) : Bool :=
+  (P.findFn f).isNone &&
     match builtinTy f with
     | some t => tyBeq t tf
-    | none => false
+    | none => f == "missing" && (match tf with | .func [.string] _ => true | _ => false)
 
 /-- the dispatch-table row `Sem` finds for `(tr, key τ, m)` names a function of the program whose
     signature is `(τ, argument types) -> result type` of the call -/
@@ -169,16 +152,16 @@ def dispatchOk (P : Prog) (tr m : String) (τ : Ty) (argTys : List Ty) (ty : Ty)
 
 mutual
 def okE (P : Prog) (Γ : TyEnv) (K : Know) : Expr → Bool
-  | .var x _ => (lookupVar Γ x).isSome
+  | .var x ty => (lookupVar Γ x).isSome || fnValOk P x ty
   | .prim _ => true
   | .tag _ _ => false
   | .constr c ty args => ctorTyOk c ty && okL P Γ K args
   | .tuple _ items => okL P Γ K items
   | .array _ _ => false
-  | .closure _ _ _ => false
+  | .closure _ ps body => okE P (bindAll ps Γ) [] body
   | .letE x v b => okE P Γ K v && okE P ((x, getTy v) :: Γ) (dropK x K) b
   | .matchE _ s arms d =>
-    okE P Γ K s && okA P Γ K (scrutVar s) arms &&
+    okE P Γ K s && okA P Γ K (scrutLocal Γ s) arms &&
       (match d with | some d => okE P Γ K d | none => true)
   | .ite c t e => okE P Γ K c && okE P Γ K t && okE P Γ K e
   | .while c b => okE P Γ K c && okE P Γ K b
@@ -192,9 +175,10 @@ def okE (P : Prog) (Γ : TyEnv) (K : Know) : Expr → Bool
   | .bin _ _ l r => okE P Γ K l && okE P Γ K r
   | .call ty f args =>
     okL P Γ K args &&
-      (match f with
-       | .var fn tf => (lookupVar Γ fn).isNone && calleeOk P fn tf && tyBeq tf (.func (getTys args) ty)
-       | _ => false)
+      ((match f with
+        | .var fn tf => (lookupVar Γ fn).isNone && builtinOk P fn tf && tyBeq tf (.func (getTys args) ty)
+        | _ => false) ||
+       (okE P Γ K f && tyBeq (getTy f) (.func (getTys args) ty)))
   | .toDyn _ _ _ _ => false
   | .dynCall _ _ _ _ _ => false
   | .traitCall tr m ty recv args =>
@@ -213,6 +197,37 @@ def okA (P : Prog) (Γ : TyEnv) (K : Know) (sv : Option String) : List Arm → B
      | _ => false) && okA P Γ K sv rest
 end
 
+mutual
+/-- `VT S P v τ`: the value `v` of `Sem` inhabits the closed type `τ` -/
+inductive VT (S : Sig) (P : Prog) : Val → Ty → Prop
+  | unit : VT S P .unit .unit
+  | bool (b : Bool) : VT S P (.bool b) .bool
+  | int (b : Nat) (s : Bool) (x : Int) : VT S P (.int b s x) (.int b s)
+  | float (b : Nat) (x : Float) : VT S P (.float b x) (.float b)
+  | str (s : String) : VT S P (.str s) .string
+  | tuple {vs : List Val} {ts : List Ty} : VTs S P vs ts → VT S P (.tuple vs) (.tuple ts)
+  | enumV {n : String} {idx : Nat} {args : List Val} {t : Ty} {fts : List Ty} :
+      isEnumTy t = true → enumFieldTys S n idx t = some fts → VTs S P args fts → VT S P (.enumV n idx args) t
+  | structV {n : String} {fs : List Val} {t : Ty} {fts : List Ty} :
+      isStructTy t = true → fieldTys S (.struct n) t = some fts → VTs S P fs fts → VT S P (.structV n fs) t
+  /-- a closure: its code is `Wt`-consistent and in the fragment under a typing `Γ` of the captured
+      environment, at the instantiation `θ` of the activation that built it -/
+  | closure {θ : Subst} {ρ : Env} {Γ : TyEnv} {pts : List (String × Ty)} {body : Expr} :
+      ET S P θ ρ Γ → errs S (bindAll pts Γ) body = [] → okE P (bindAll pts Γ) [] body = true →
+      VT S P (.closure (pts.map (·.1)) body ρ) (.func (substTys θ (pts.map (·.2))) (substTy θ (getTy body)))
+  /-- a top-level function as a value, at an instance of its signature -/
+  | fn {name : String} {g : Fn} (θ : Subst) :
+      P.findFn name = some g → VT S P (.fn name) (substTy θ (fnTy g))
+inductive VTs (S : Sig) (P : Prog) : List Val → List Ty → Prop
+  | nil : VTs S P [] []
+  | cons {v : Val} {vs : List Val} {t : Ty} {ts : List Ty} : VT S P v t → VTs S P vs ts → VTs S P (v :: vs) (t :: ts)
+/-- `ET S P θ ρ Γ`: same names in the same order, values of the types of `Γ` instantiated by `θ` -/
+inductive ET (S : Sig) (P : Prog) : Subst → Env → TyEnv → Prop
+  | nil {θ : Subst} : ET S P θ [] []
+  | cons {θ : Subst} {x : String} {v : Val} {t : Ty} {ρ : Env} {Γ : TyEnv} :
+      VT S P v (substTy θ t) → ET S P θ ρ Γ → ET S P θ ((x, v) :: ρ) ((x, t) :: Γ)
+end
+
 def okFn (S : Sig) (P : Prog) (f : Fn) : Bool :=
   wtFn S f && okE P (bindAll f.params []) [] f.body
 
@@ -225,16 +240,16 @@ def okProg (S : Sig) (P : Prog) : Bool :=
 
 mutual
 partial def whyE (P : Prog) (Γ : TyEnv) (K : Know) : Expr → Option String
-  | .var x _ => if (lookupVar Γ x).isSome then none else some "fn-as-value"
+  | .var x ty => if (lookupVar Γ x).isSome || fnValOk P x ty then none else some ("global-as-value:" ++ x)
   | .prim _ => none
   | .tag _ _ => some "tag"
   | .constr c ty args => if ctorTyOk c ty then whyL P Γ K args else some "constr:kind"
   | .tuple _ items => whyL P Γ K items
   | .array _ _ => some "array"
-  | .closure _ _ _ => some "closure"
+  | .closure _ ps body => whyE P (bindAll ps Γ) [] body
   | .letE x v b => (whyE P Γ K v).orElse fun _ => whyE P ((x, getTy v) :: Γ) (dropK x K) b
   | .matchE _ s arms d =>
-    (whyE P Γ K s).orElse fun _ => (whyA P Γ K (scrutVar s) arms).orElse fun _ =>
+    (whyE P Γ K s).orElse fun _ => (whyA P Γ K (scrutLocal Γ s) arms).orElse fun _ =>
       match d with | some d => whyE P Γ K d | none => none
   | .ite c t e => (whyE P Γ K c).orElse fun _ => (whyE P Γ K t).orElse fun _ => whyE P Γ K e
   | .while c b => (whyE P Γ K c).orElse fun _ => whyE P Γ K b
@@ -252,15 +267,17 @@ partial def whyE (P : Prog) (Γ : TyEnv) (K : Know) : Expr → Option String
   | .bin _ _ l r => (whyE P Γ K l).orElse fun _ => whyE P Γ K r
   | .call ty f args =>
     (whyL P Γ K args).orElse fun _ =>
-      match f with
-      | .var fn tf =>
-        if (lookupVar Γ fn).isSome then some "call:through-a-local"
-        else if !calleeOk P fn tf then
-          (match P.findFn fn with
-           | some _ => some "call:not-the-instance-matchTy-finds"
-           | none => some ("call:builtin:" ++ fn))
-        else if !tyBeq tf (.func (getTys args) ty) then some "call:annotation-vs-arguments" else none
-      | _ => some "call:callee-not-a-variable"
+      let direct := match f with
+        | .var fn tf => (lookupVar Γ fn).isNone && builtinOk P fn tf && tyBeq tf (.func (getTys args) ty)
+        | _ => false
+      if direct then none else
+      (match f with
+       | .var fn tf =>
+         if (lookupVar Γ fn).isNone && (P.findFn fn).isNone then some ("call:builtin:" ++ fn)
+         else if (lookupVar Γ fn).isNone && !fnValOk P fn tf then some "call:not-the-instance-matchTy-finds"
+         else none
+       | _ => whyE P Γ K f).orElse fun _ =>
+        if !tyBeq (getTy f) (.func (getTys args) ty) then some "call:annotation-vs-arguments" else none
   | .toDyn _ _ _ _ => some "todyn"
   | .dynCall _ _ _ _ _ => some "dyncall"
   | .traitCall tr m ty recv args =>
